@@ -243,9 +243,15 @@ func (r *FeatureLocal) ApproveOrDenyWrite(msg *api.Message, err model.ErrorType)
 		}
 	}
 
-	timer.Stop()
+	// if the timer could not be stopped it already fired (its function sends or
+	// has sent the error result) or the approval was already concluded or cleaned up
+	stopped := timer.Stop()
 
 	delete(r.writeApprovalReceived[ski], *msg.RequestHeader.MsgCounter)
+
+	if !stopped {
+		return
+	}
 
 	r.muxResponseCB.Lock()
 	defer r.muxResponseCB.Unlock()
